@@ -13,6 +13,11 @@ Definition sf : string := "f".   Definition sg : string := "g".   Definition sh 
 Definition k0 : path := [sa].           Definition k1 : path := [sa; sb].   Definition k2 : path := [sab].
 Definition k3 : path := [sa; sb; sc].   Definition k4 : path := [sd; se].   Definition k5 : path := [sd].
 Definition k6 : path := [sf].           Definition k7 : path := [sg; sh].   Definition k8 : path := [sa; sc].
+(* keys with the characters on which URL escaping variants differ *)
+Definition k9 : path := ["x y"%string].     Definition k10 : path := ["x+y"%string].   Definition k11 : path := ["x%20y"%string].
+Definition k12 : path := ["m&n=o"%string].  Definition k13 : path := ["t?u"%string].   Definition k14 : path := ["t"%string].
+Definition k15 : path := ["v#w"%string].    Definition k16 : path := ["dir one"%string; "i+n"%string].
+Definition k17 : path := ["q%zz"%string].
 
 (* request bodies: the harness's linear congruential generator / constant runs *)
 Fixpoint gen_go (n : nat) (x : N) : bytes :=
